@@ -874,6 +874,52 @@ def _r4(model, rep):
                      "comes back as a plain index array", fn.lineno)
 
 
+def _loaders_keep_numbering(model, rep):
+    """'the mesh comes back equal': a loader has to build the mesh with the
+    connectivity exactly as stored.  Mesh.__post_init__ re-sorts the
+    vertices of every cell when sort_t is true, and MeshTri1 defaults to
+    sort_t=True: a triangle mesh saved unsorted (oriented(), sort_t=False)
+    comes back with other columns of t (half of the cells clockwise) - and
+    the per-slot bits of the cell data are decoded against the *re-sorted*
+    local facet numbering, i.e. named boundaries designate other facets.
+    Every constructor call of a loader must pass sort_t=False (or no class
+    may default to sorting)."""
+    R1 = "C17-R1"
+    sorting = []
+    for c in model.all_classes():
+        if not c.path.startswith("skfem/mesh/"):
+            continue
+        a = c.attrs.get("sort_t")
+        if a is not None and isinstance(a, ast.Constant) and a.value is True:
+            sorting.append(c.name)
+    mcls = model.cls(MESH, "Mesh")
+    loaders = [("Mesh.load_npz", mcls.methods["load_npz"], ("cls",)),
+               ("Mesh.from_dict", mcls.methods["from_dict"], ("cls",)),
+               ("from_meshio", model.func(IO, "from_meshio"),
+                ("mesh_type",))]
+    for name, fn, ctor_names in loaders:
+        calls = [n for n in ast.walk(fn.node) if isinstance(n, ast.Call)
+                 and isinstance(n.func, ast.Name)
+                 and n.func.id in ctor_names]
+        if not calls:
+            raise AnalysisError(f"{name}: constructor call not found")
+        keeps = all(any(k.arg == "sort_t" and isinstance(
+            k.value, ast.Constant) and k.value.value is False
+            for k in c.keywords) for c in calls)
+        _v(rep, R1, keeps or not sorting, f"{name}:keeps-connectivity",
+           "the mesh is built with the stored connectivity as it is",
+           name,
+           f"{name} builds the mesh with the class default of sort_t, and "
+           f"{sorting} default to sort_t=True: the columns of t of a mesh "
+           f"saved with sort_t=False (oriented()) are re-sorted on load "
+           f"(cells change orientation)" + (
+               "; the per-slot boundary bits of the cell data are then "
+               "decoded against the re-sorted local facet numbering: named "
+               "boundaries come back as other facets"
+               if name == "from_meshio" else ""),
+           fn.lineno, fn.path)
+
+
 def _r5(model, rep):
     R5 = "C17-R5"
     an = Analyzer(model)
@@ -919,6 +965,7 @@ def run(model: Model, rep, tier: str) -> None:
     hexm = _r1(model, rep)
     _r2(rep, hexm)
     staged(lambda: _r3(model, rep), lambda: _r4(model, rep),
+           lambda: _loaders_keep_numbering(model, rep),
            lambda: _r5(model, rep))
     rep.require_min("C17-R1", 9)
     rep.require_min("C17-R2", 5)
